@@ -10,6 +10,9 @@ import Lattigo.Model.PolyEval
     eval t= q= slots= cheb= lazy= lvl= scale= tscale= x= map=<a,b|c,d>|- (P <coeffs>)+
                                       → tr=<trace> st=<status> [lvl= scale= vals= ps=]
     eval-ckks-lazy …                  same as eval (ckks, Lazy = true): needs the ckks MulThenAdd fix C06-6/7
+    optional tokens of eval: inv=0|1 (bgv.Evaluator.ScaleInvariant), odd=0|1 even=0|1 (IsOdd/IsEven as
+    set by the user), pre=<op,op,…>|- : EvaluateFromPowerBasis on a basis the caller filled with
+    g<n> / g<n>l (GenPower(n, lazy=false/true)) and f<n>:<level>:<scale> (fresh encryption of x^n)
 -/
 namespace Driver.C13
 open Driver
@@ -27,6 +30,29 @@ def parseMap (s : String) : Option (Option (List (List Nat))) :=
   if s == "-" then some none
   else ((s.splitOn "|").mapM parseVec?).map some
 
+def parsePre (s : String) : Option (List PreOp) :=
+  if s == "-" then some []
+  else (s.splitOn ",").mapM fun e =>
+    match e.toList with
+    | 'g' :: body =>
+      if body.getLast? == some 'l' then (parseNat? (String.ofList body.dropLast)).map fun n => PreOp.gen n true
+      else (parseNat? (String.ofList body)).map fun n => PreOp.gen n false
+    | 'f' :: body =>
+      match (String.ofList body).splitOn ":" with
+      | [n, l, sc] => do
+        let n ← parseNat? n
+        let l ← parseNat? l
+        let sc ← parseNat? sc
+        some (PreOp.fresh n l sc)
+      | _ => none
+    | _ => none
+
+def flag (toks : List String) (k : String) (dflt : Bool) : Bool :=
+  match kv? toks k with
+  | some "1" => true
+  | some "0" => false
+  | _ => dflt
+
 def evalLine (toks : List String) : Option String := do
   let t ← (kv? toks "t") >>= parseNat?
   let q ← (kv? toks "q") >>= parseVec?
@@ -39,8 +65,14 @@ def evalLine (toks : List String) : Option String := do
   let x ← (kv? toks "x") >>= parseIVec?
   let mapping ← (kv? toks "map") >>= parseMap
   let polys ← parsePolys (toks.dropWhile (· != "P"))
-  let env : Env := { t := t, q := q, cheb := cheb == 1, slots := slots }
-  let (tr, st, o) := run env polys mapping (lazy == 1) lvl scale tscale (if t = 0 then List.replicate slots 0 else x)
+  let odd := flag toks "odd" true
+  let even := flag toks "even" true
+  let env : Env := { t := t, q := q, cheb := cheb == 1, slots := slots, inv := flag toks "inv" false,
+                     odd := odd, even := even }
+  let xin := if t = 0 then List.replicate slots 0 else x
+  let (tr, st, o) ← match kv? toks "pre" with
+    | none => some (run env polys mapping (lazy == 1) lvl scale tscale xin)
+    | some ps => (parsePre ps).map fun pre => runFrom env pre polys mapping (lazy == 1) lvl scale tscale xin
   let trs := if tr.isEmpty then "-" else ";".intercalate tr
   match o with
   | none => some s!"tr={trs} st={st}"
@@ -55,6 +87,8 @@ def evalLine (toks : List String) : Option String := do
           | none => polys.headD []
           | some m => (m.zip polys).foldl (fun acc mc => if mc.1.contains j then mc.2 else acc) []
         (psRec intOps (cheb == 1) logSplit (x.getD j 0) (deg + 2) poly) % (t : Int)
+      -- under user-set flags the machine's values stand for themselves (layer (A) is flagless)
+      let ps := if odd && even then ps else o.val
       some s!"tr={trs} st={st} lvl={o.level} scale={o.scale} vals={showIVec o.val} ps={showIVec ps}"
 
 def handle (toks : List String) : String :=
